@@ -788,7 +788,7 @@ def gen_tree(rng, d):
     if r < 0.92:
         o = {}
         if rng.random() < 0.5:
-            o["padding"] = rng.choice([(0, 1), (0,), (1, 2), (0, 0, 0, 3)])
+            o["padding"] = rng.choice([(0, 1), (0,), (1, 2), (0, 0, 0, 3), (0, 2, 0, 0), (0, 1, 0, 3), (1, 3, 0, 1)])
         for key in ("equal", "column_first", "right_to_left", "expand"):
             if rng.random() < 0.3:
                 o[key] = True
